@@ -561,6 +561,12 @@ func (o *c16) Step(r *StepRec) []Violation {
 	if a.Kind == KRestart && r.OK {
 		o.killed = map[string]bool{}
 	}
+	for _, rc := range post.Ctxs {
+		if rc.BatchCounter%256 == 255 {
+			o.hit("a_context_at_a_batch_counter_ending_in_ff")
+			break
+		}
+	}
 	if r.OK && (a.Kind == KKill || a.Kind == KModKill) {
 		if rc, ok := post.Ctxs[a.CtxID]; ok && rc.State == stCompleted {
 			o.killed[a.CtxID] = true
